@@ -47,6 +47,7 @@ type Slot struct {
 	Weight int
 	// driver-visible state, go:norace access only
 	cur   *gate
+	extra []*gate
 	label string
 	en    Enabler
 	op    int
@@ -55,12 +56,28 @@ type Slot struct {
 
 //go:norace
 func (s *Slot) publish(g *gate, label string, en Enabler, op int) {
+	if s.cur != nil {
+		// A second goroutine parks where one is already parked (two
+		// concurrent reads of one body, ...). Queue it so nobody is
+		// orphaned, and remember it: engines report it as a finding.
+		s.extra = append(s.extra, g)
+		s.sim.sanity = append(s.sim.sanity, "two goroutines parked at once on "+s.Name+" ("+s.label+" and "+label+")")
+		return
+	}
 	s.cur, s.label, s.en, s.op = g, label, en, op
 	s.parks++
 }
 
 //go:norace
-func (s *Slot) take() *gate { g := s.cur; s.cur = nil; return g }
+func (s *Slot) take() *gate {
+	g := s.cur
+	s.cur = nil
+	if len(s.extra) > 0 {
+		s.cur = s.extra[0]
+		s.extra = s.extra[1:]
+	}
+	return g
+}
 
 //go:norace
 func (s *Slot) parked() bool { return s.cur != nil }
@@ -130,6 +147,7 @@ type Sim struct {
 	mutexes  [16]mutexMirror
 	gids     [512]gidEntry
 	counters [NumCounters]int
+	sanity   []string
 	idleAdv  time.Duration
 	start    time.Time
 }
@@ -187,6 +205,12 @@ func (s *Sim) CountN(id, n int) { s.counters[id] += n }
 
 //go:norace
 func (s *Sim) Counters() [NumCounters]int { return s.counters }
+
+// Sanity returns the simulator's own sanity remarks (e.g. two goroutines
+// blocked in one simulated I/O object at once).
+//
+//go:norace
+func (s *Sim) Sanity() []string { return s.sanity }
 
 //go:norace
 func (s *Sim) StepNo() int { return s.step }
